@@ -124,7 +124,7 @@ def enc_value(rng, v: bytes) -> str:
             if must or rng.random() < 0.25:
                 for b in ch.encode("utf-8"):
                     h = f"{b:02x}"
-                    out.append("\\" + (h.upper() if rng.random() < 0.5 else h))
+                    out.append("\\" + "".join(c.upper() if rng.random() < 0.5 else c for c in h))   # RFC 4515: each HEX digit has its own case
             else:
                 out.append(ch)
         return "".join(out)
@@ -132,7 +132,7 @@ def enc_value(rng, v: bytes) -> str:
         must = b in (0x00, 0x28, 0x29, 0x2A, 0x5C) or b >= 0x80
         if must or rng.random() < 0.3:
             h = f"{b:02x}"
-            out.append("\\" + (h.upper() if rng.random() < 0.5 else h))
+            out.append("\\" + "".join(c.upper() if rng.random() < 0.5 else c for c in h))
         else:
             out.append(chr(b))
     return "".join(out)
@@ -186,7 +186,7 @@ def mutate(rng, s: str) -> str:
         return rng.choice(STRUCT)
     i = rng.randrange(len(s))
     r = rng.random()
-    c = rng.choice(STRUCT) if rng.random() < 0.9 else chr(rng.choice([0x2028, 0x3000, 0x1F600, 0x7F, 0x1C]))
+    c = rng.choice(STRUCT) if rng.random() < 0.9 else chr(rng.choice([0x2028, 0x3000, 0x1F600, 0x7F, 0x1C, 0xDC80, 0xDCFF, 0xDCC3]))
     if r < 0.34:
         return s[:i] + c + s[i:]
     if r < 0.67:
@@ -204,7 +204,8 @@ FIXED_TEXTS = [
     "(=b)", "(a=)", "(a>=)", "(:=b)", "(a:=b)", "(:dn:=b)", "(a::=b)", "(a:dn:dn:=b)", "(a:b:c:=d)", "(a=\\)", "(a=\\4)", "(a=\\4g)", "(a=\\\n41)",
     "(a=**)", "(a=*)", "(a=b*)", "(a=*b)", "(a=b**c)", "(a=\\2a)", "(1=x)", "(1.2=x)", "(01.2=x)", "(a;=x)", "(a;b=x)", "(é=x)", "(a=é)",
     "　(a=b) ", "(!(a=b)(c=d))", "(&(a=b)c=d)", "(|a=b)", "( & (a=b) )", "(a=b )", "( a=b)", "(a =b)", "(!" * 60 + "(a=b)" + ")" * 60,
-    "(!" * 3000 + "(a=b)" + ")" * 3000, "(&" * 3000, "(a>~=b)", "(a~>=b)", "(a<=b=c)", "(a=b~=c)", "(0=x)", "(0;o=x)",
+    "(!" * 3000 + "(a=b)" + ")" * 3000, "(&" * 3000, "(\udc80=a)", "\udcff=a", "(a=\udc80)", "(a:\udc80:=b)", "(:\udce9:=b)", "(a\udc80>=b)", "(a;\udcc3\udca9=x)",
+    "(a>~=b)", "(a~>=b)", "(a<=b=c)", "(a=b~=c)", "(0=x)", "(0;o=x)",
 ]
 
 
